@@ -27,6 +27,9 @@ func traceGap(w *world, logN int) int {
 	if logN == 0 {
 		return N
 	}
+	if w.rt == ring.ConjugateInvariant {
+		return N >> logN // 2^logN real slots occupy 2^logN coefficients of the conjugate-invariant ring
+	}
 	return N >> (logN + 1)
 }
 
